@@ -425,6 +425,7 @@ entry:
 		if (HAWK_SIZEOF(hawk_uch_t) == HAWK_SIZEOF(hawk_bch_t)) dir_flags |= HAWK_DIR_BPATH;
 
 		dp = hawk_dir_open(g->gem, 0, (const hawk_uch_t*)HAWK_UECS_PTR(&g->path), dir_flags);
+		if (!dp && hawk_gem_geterrnum(g->gem) == HAWK_ENOMEM) goto oops; /* not the same as a directory that cannot be read */
 		if (dp)
 		{
 			tmp = HAWK_UECS_LEN(&g->path);
@@ -551,7 +552,7 @@ oops:
 
 	while (g->free)
 	{
-		r = g->stack;
+		r = g->free;
 		g->free = r->next;
 		hawk_gem_freemem (g->gem, r);
 	}
@@ -591,7 +592,7 @@ int hawk_gem_uglob (hawk_gem_t* gem, const hawk_uch_t* pattern, hawk_gem_uglob_c
 	{
 		if (hawk_becs_init(&g.mbuf, g.gem, 512) <= -1)
 		{
-			hawk_uecs_fini (&g.path);
+			hawk_uecs_fini (&g.tbuf);
 			hawk_uecs_fini (&g.path);
 			return -1;
 		}
@@ -604,7 +605,7 @@ int hawk_gem_uglob (hawk_gem_t* gem, const hawk_uch_t* pattern, hawk_gem_uglob_c
 
 	x = __u_search(&g, &seg);
 
-	if (HAWK_SIZEOF(hawk_uch_t) != HAWK_SIZEOF(hawk_uch_t)) hawk_becs_fini (&g.mbuf);
+	if (HAWK_SIZEOF(hawk_uch_t) != HAWK_SIZEOF(hawk_bch_t)) hawk_becs_fini (&g.mbuf);
 	hawk_uecs_fini (&g.tbuf);
 	hawk_uecs_fini (&g.path);
 
@@ -875,6 +876,7 @@ entry:
 		if (HAWK_SIZEOF(hawk_bch_t) == HAWK_SIZEOF(hawk_bch_t)) dir_flags |= HAWK_DIR_BPATH;
 
 		dp = hawk_dir_open(g->gem, 0, (const hawk_bch_t*)HAWK_BECS_PTR(&g->path), dir_flags);
+		if (!dp && hawk_gem_geterrnum(g->gem) == HAWK_ENOMEM) goto oops; /* not the same as a directory that cannot be read */
 		if (dp)
 		{
 			tmp = HAWK_BECS_LEN(&g->path);
@@ -1001,7 +1003,7 @@ oops:
 
 	while (g->free)
 	{
-		r = g->stack;
+		r = g->free;
 		g->free = r->next;
 		hawk_gem_freemem (g->gem, r);
 	}
@@ -1041,7 +1043,7 @@ int hawk_gem_bglob (hawk_gem_t* gem, const hawk_bch_t* pattern, hawk_gem_bglob_c
 	{
 		if (hawk_becs_init(&g.mbuf, g.gem, 512) <= -1)
 		{
-			hawk_becs_fini (&g.path);
+			hawk_becs_fini (&g.tbuf);
 			hawk_becs_fini (&g.path);
 			return -1;
 		}
@@ -1054,7 +1056,7 @@ int hawk_gem_bglob (hawk_gem_t* gem, const hawk_bch_t* pattern, hawk_gem_bglob_c
 
 	x = __b_search(&g, &seg);
 
-	if (HAWK_SIZEOF(hawk_bch_t) != HAWK_SIZEOF(hawk_uch_t)) hawk_becs_fini (&g.mbuf);
+	if (HAWK_SIZEOF(hawk_bch_t) != HAWK_SIZEOF(hawk_bch_t)) hawk_becs_fini (&g.mbuf);
 	hawk_becs_fini (&g.tbuf);
 	hawk_becs_fini (&g.path);
 
